@@ -21,7 +21,7 @@ func init() {
 			`(R06.4 of the design, queue capacity, was dropped as not necessary.) ` +
 			`R05.3/R05.5/R05.6 (shared) the deviation table of the validator: the healer repairs what is reported. ` +
 			`R06.3 also: the FILE case returns without queueing only through the outcome files[idx] == true (a FILE wound is a file to re-make whatever its range). ` +
-			`R05.1 (shared) healthy verdict of the block validator only under index-in-range and strong-hash equality. R06.8 in the archive healer's methods a plain os.Remove is reached only through the outcome !IsDir() of a look at the path (what may be a non-empty directory goes through RemoveAll, or is left to the pool). NOT decided: that healed content equals the signed content, validator/healer interleavings, behaviour under cancellation.`,
+			`R05.1 (shared) healthy verdict of the block validator only under index-in-range and strong-hash equality. R06.8 in the archive healer's methods a plain os.Remove is reached only through the outcome !IsDir() of a look at the path (what may be a non-empty directory goes through RemoveAll, or is left to the pool). R06.7 also: from either outcome of a test of the broken-directory record, the next entry (next turn of the loop, success return) is reached only through an examination or through a wound being sent (plain send or select case, directly or in a called literal). NOT decided: that healed content equals the signed content, validator/healer interleavings, behaviour under cancellation.`,
 		Assumptions: []string{"the healer's repair switch is the function literal in ArchiveHealer.Do that switches on wound.Kind"},
 		Run:         runC06,
 		Fixtures:    fixturesNoFollow,
